@@ -795,14 +795,26 @@ fn identity_part(ctx: &Ctx, res: &mut PartResult, depth: usize) {
         tracing::info_span!("wide2", g00 = 0, g01 = 1, g02 = 2, g03 = 3, g04 = 4, g05 = 5, g06 = 6, g07 = 7, g08 = 8, g09 = 9, g10 = 10, g11 = 11, g12 = 12, g13 = 13, g14 = 14, g15 = 15, g16 = 16, g17 = 17, g18 = 18, g19 = 19)
     }
     const POOL: usize = 3;
-    // ops: 0,1 = create with a=1 / a=2; 2..5 enter(i); 5 exit; 6..9 record(i); 9..12 drop(i); 12 = the wide pair
-    let n_ops = 13;
+    // ops: 0,1 = create with a=1 / a=2; 2..5 enter(i); 5 exit; 6..9 record(i); 9..12 drop(i); 12 = the wide pair;
+    // 13 = the same recorder used under a SECOND subscriber instance for a moment (a span there, an emission in it)
+    let n_ops = 14;
+    let dispatch2 = Dispatch::new(tracing_subscriber::registry().with(MetricsLayer::new()));
     let mut total_checks = 0u64;
     for filter in [Filter::All, Filter::Allow(vec!["a", "b"])] {
         let log: Log = Default::default();
         let rec = filter.build(log.clone());
         let mut all_fails: Vec<(String, String, Vec<usize>)> = Vec::new();
         let mut transitions = 0u64;
+        {
+            // the recorder's very first emission happens while no subscriber is installed at all (key unchanged); what
+            // it sees later must not depend on that
+            let mut fails: Vec<(String, String)> = Vec::new();
+            let mut env = Env { rec: rec.as_ref(), log: &log, filter: &filter, fails: &mut fails, checks: &mut total_checks, states: &mut states, tree: &dummy };
+            emit_and_check(&mut env, None, "the recorder's first emission, before any subscriber exists");
+            if let Some((sig, msg)) = fails.into_iter().next() {
+                all_fails.push((sig, msg, vec![]));
+            }
+        }
         let mut run = |seq: &[usize]| -> Option<usize> {
             let mut cut: Option<usize> = None;
             tracing::dispatcher::with_default(&dispatch, || {
@@ -816,7 +828,7 @@ fn identity_part(ctx: &Ctx, res: &mut PartResult, depth: usize) {
                         2..=4 => pool[op - 2].is_some() && !stack.iter().any(|e| e.0 == op - 2),
                         5 => !stack.is_empty(),
                         6..=8 => pool[op - 6].is_some(),
-                        12 => true,
+                        12 | 13 => true,
                         _ => pool[op - 9].is_some() && !stack.iter().any(|e| e.0 == op - 9),
                     };
                     if !applicable {
@@ -877,6 +889,24 @@ fn identity_part(ctx: &Ctx, res: &mut PartResult, depth: usize) {
                                 break;
                             }
                         }
+                        13 => {
+                            // what is current under the first subscriber is not visible under the second one
+                            let mut fails: Vec<(String, String)> = Vec::new();
+                            tracing::dispatcher::with_default(&dispatch2, || {
+                                let mut env = Env { rec: rec.as_ref(), log: &log, filter: &filter, fails: &mut fails, checks: &mut total_checks, states: &mut states, tree: &dummy };
+                                emit_and_check(&mut env, None, &format!("under a second subscriber, outside its spans, at step {} of {:?}", step, &seq[..=step]));
+                                let sp = mk(7);
+                                let g = sp.enter();
+                                let want: BTreeMap<String, String> = [("a".to_string(), "7".to_string())].into_iter().collect();
+                                emit_and_check(&mut env, Some(&want), &format!("under a second subscriber, inside a span with a=7, at step {} of {:?}", step, &seq[..=step]));
+                                drop(g);
+                            });
+                            if let Some((sig, msg)) = fails.into_iter().next() {
+                                all_fails.push((sig, msg, seq[..=step].to_vec()));
+                                cut = Some(step);
+                                break;
+                            }
+                        }
                         _ => {
                             pool[op - 9] = None;
                         }
@@ -885,7 +915,7 @@ fn identity_part(ctx: &Ctx, res: &mut PartResult, depth: usize) {
                     let mut fails: Vec<(String, String)> = Vec::new();
                     {
                         let mut env = Env { rec: rec.as_ref(), log: &log, filter: &filter, fails: &mut fails, checks: &mut total_checks, states: &mut states, tree: &dummy };
-                        emit_and_check(&mut env, visible.as_ref(), &format!("after step {} of the one-callsite program {:?} (0,1 = create a=1/2 under the current span; 2-4 enter; 5 exit; 6-8 record b; 9-11 drop handle; 12 = a wide pair of spans with 40 labels created, checked and closed)", step, &seq[..=step]));
+                        emit_and_check(&mut env, visible.as_ref(), &format!("after step {} of the one-callsite program {:?} (0,1 = create a=1/2 under the current span; 2-4 enter; 5 exit; 6-8 record b; 9-11 drop handle; 12 = a wide pair of spans with 40 labels created, checked and closed; 13 = an emission under a second subscriber)", step, &seq[..=step]));
                     }
                     if let Some((sig, msg)) = fails.into_iter().next() {
                         all_fails.push((sig, msg, seq[..=step].to_vec()));
@@ -966,7 +996,7 @@ fn main() {
     driver::main(CheckDef {
         prop: "C17",
         level: "model_checking",
-        rule: "all span trees (chains of nested spans) up to the stated depth where every level independently takes one of 20 variants (fields a,b given at creation or left Empty; a later record() of a or b, either right after creation or after the child span was created), x filters {IncludeAll, custom per-metric closure, Allowlists over {a,b,c}} x metric own-label sets ⊆ {a,c} x 2 metric names x 3 kinds, emitted inside every level, after every subtree, after leaving every level and outside any span, on the real MetricsLayer + TracingContextLayer over a real tracing-subscriber registry, optionally with a second thread holding a conflicting span on the same subscriber; the key reaching the inner recorder is compared with a reference precedence map (metric > inner span > outer span-at-child-creation, record() replaces); plus, at the value-formatting callback inside Span::record (the one point where other code can run during a record), every action of {emit in the span, create a child and emit in it} x {same thread, another thread} and a concurrent record of the other field: the emission sees the labels from before or after the record, never a torn set; plus field value types (str, bool, i64/u64 extremes, Debug, Display, f64, u128, Empty); distinct = distinct resulting label sets; span identity: every sequence of 6 (thorough 8) operations over a pool of 3 spans from ONE callsite with different field values (create under the current span, enter/exit, record, drop the handle, and a wide pair of spans with 40 labels created, checked and closed — label maps are pooled — so that the registry hands span ids out again), an emission after every step",
+        rule: "all span trees (chains of nested spans) up to the stated depth where every level independently takes one of 20 variants (fields a,b given at creation or left Empty; a later record() of a or b, either right after creation or after the child span was created), x filters {IncludeAll, custom per-metric closure, Allowlists over {a,b,c}} x metric own-label sets ⊆ {a,c} x 2 metric names x 3 kinds, emitted inside every level, after every subtree, after leaving every level and outside any span, on the real MetricsLayer + TracingContextLayer over a real tracing-subscriber registry, optionally with a second thread holding a conflicting span on the same subscriber; the key reaching the inner recorder is compared with a reference precedence map (metric > inner span > outer span-at-child-creation, record() replaces); plus, at the value-formatting callback inside Span::record (the one point where other code can run during a record), every action of {emit in the span, create a child and emit in it} x {same thread, another thread} and a concurrent record of the other field: the emission sees the labels from before or after the record, never a torn set; plus field value types (str, bool, i64/u64 extremes, Debug, Display, f64, u128, Empty); distinct = distinct resulting label sets; span identity: every sequence of 6 (thorough 8) operations over a pool of 3 spans from ONE callsite with different field values (create under the current span, enter/exit, record, drop the handle, a wide pair of spans with 40 labels created, checked and closed — label maps are pooled —, and the same recorder used for a moment under a second subscriber instance; the recorder's first emission is made before any subscriber exists — so that the registry hands span ids out again), an emission after every step",
         assumptions: &["span trees are chains (each span has at most one child): sibling spans are independent by construction of the per-span label map"],
         parts,
         run,
